@@ -25,7 +25,7 @@ type C20Case struct {
 
 const rssCeilingKB = 1 << 20 // 1 GiB
 
-var c20RecShapes = []string{"direct", "mutual2", "mutual3", "match-expr", "match-block", "method-arg", "forin-body", "runaway", "runaway-mutual", "runaway-match"}
+var c20RecShapes = []string{"direct", "mutual2", "mutual3", "match-expr", "match-block", "method-arg", "forin-body", "nested-statements", "heavy-expression", "runaway", "runaway-mutual", "runaway-match", "runaway-heavy-binary", "runaway-heavy-unary", "runaway-heavy-statements"}
 
 func c20Program(c *C20Case) (prog string, input string, expect string) {
 	n := c.N
@@ -47,6 +47,18 @@ func c20Program(c *C20Case) (prog string, input string, expect string) {
 			return "function f(n) { if (n <= 0) { return 0 }\nreturn 1 + [].push(f(n - 1)).pop() }\n" + pre + "print f(" + n + ") }", "", n
 		case "forin-body":
 			return "function f(n, r) { if (n <= 0) { return 0 }\nfor (x in [1]) { r = f(n - 1, 0) }\nreturn 1 + r }\n" + pre + "print f(" + n + ", 0) }", "", n
+		case "nested-statements":
+			// the recursive call sits inside several nested statements and expressions (a tree walk)
+			return "function f(n, r) { if (n <= 0) { return 0 }\nfor (x in [1]) { if (n > 0) { for (y in [1]) { if (true) { r = [0 + (0 + (1 + f(n - 1, 0)))][0] } } } }\nreturn r }\n" + pre + "print f(" + n + ", 0) }", "", n
+		case "heavy-expression":
+			// 40 operators deep around the call
+			return "function f(n) { if (n <= 0) { return 0 }\nreturn 1 + f(n - 1)" + strings.Repeat(" + 0", 40) + " }\n" + pre + "print f(" + n + ") }", "", n
+		case "runaway-heavy-binary":
+			return "function f(n) { return f(n + 1)" + strings.Repeat(" + 1", 100) + " }\n" + pre + "print f(0) }", "", "REFUSED"
+		case "runaway-heavy-unary":
+			return "function f(n) { return " + strings.Repeat("!", 120) + "f(n + 1) }\n" + pre + "print f(0) }", "", "REFUSED"
+		case "runaway-heavy-statements":
+			return "function f(n) { " + strings.Repeat("if (true) { ", 150) + "return f(n + 1)" + strings.Repeat(" }", 150) + " }\n" + pre + "print f(0) }", "", "REFUSED"
 		case "runaway":
 			return "function f(n) { return f(n + 1) }\n" + pre + "print f(0) }", "", "REFUSED"
 		case "runaway-mutual":
